@@ -252,6 +252,20 @@ func TestVerifC05(t *testing.T) {
 	}
 	if thorough {
 		scns = append(scns, three...)
+		// four requests; requests of different kinds contending for the one database mutex; three nodes on one redis
+		for _, k := range kinds {
+			vs := vc05Variants(k, "s1")
+			init := []VerifC05Init{{Kind: k, ID: "s1", Val: "clientA"}}
+			if k == "s2s" || k == "jti" {
+				init = nil
+			}
+			scns = append(scns, vc05Scn(k+"-4", "mem", false, init, vs[0], vs[rng.Intn(len(vs))], vs[0], vs[len(vs)-1]))
+			scns = append(scns, vc05Scn(k+"-3-multinode", "redis-multinode", false, init, vs[0], vs[0], vs[rng.Intn(len(vs))]))
+			scns = append(scns, vc05Scn(k+"-3-strict", "mem", true, init, vs[0], vs[0], vs[rng.Intn(len(vs))]))
+		}
+		codeInit := []VerifC05Init{{Kind: "code", ID: "s1", Val: "clientA"}}
+		scns = append(scns, vc05Scn("mixed-3", "mem", false, codeInit, vc05Variants("code", "s1")[0], vc05Variants("code", "s1")[2], vc05Variants("s2s", "s1")[0]))
+		scns = append(scns, vc05Scn("mixed-4", "redis", false, codeInit, vc05Variants("code", "s1")[0], vc05Variants("jti", "s1")[0], vc05Variants("jti", "s1")[0], vc05Variants("code", "s1")[1]))
 	} else {
 		// quick: one three-thread scenario of a cheap kind, chosen by the seed
 		cheap := []*VerifC05Scn{}
@@ -265,6 +279,10 @@ func TestVerifC05(t *testing.T) {
 
 	for _, s := range scns {
 		n, cut := w.Explore(vc05StorageLevel, s, maxRuns)
+		if cut {
+			// too many schedules to enumerate: add as many uniformly random walks through the schedule tree
+			w.Sample(vc05StorageLevel, s, maxRuns, rng.Intn)
+		}
 		w.Comment(fmt.Sprintf("scenario %s threads=%d schedules=%d truncated=%v", s.Name, len(s.Threads), n, cut))
 	}
 
